@@ -59,13 +59,15 @@ class ServerHooks(Hooks):
         if recv.kind == "headers" and name == "get":
             key = args[0].v if args and isinstance(args[0], Const) else None
             if key == "Authorization":
+                if self.scenario == "foreign-scheme":
+                    return Const("Bearer abc.def.ghi")  # an Authorization header of another scheme: no `Snowflake Token="…"` shape, no quotes
                 return Const(None) if self.scenario == "no-auth" else Sym("AUTH_HEADER", typ="str", truthy=True)
         return NotImplemented
 
     def dict_get(self, I, dct, key, site):
         if dct.shared_name == ".".join(session_table(I.prog)):
             I.effect("session-lookup", key, site)
-            return Const(None) if self.scenario == "bad-token" else Obj("SESSION_CONN", kind="conn")
+            return Const(None) if self.scenario in ("bad-token", "foreign-scheme") else Obj("SESSION_CONN", kind="conn")
         return NotImplemented
 
     def intercept(self, I, key, args, kwargs, site):
@@ -102,17 +104,17 @@ def rule_auth(ctx):
         return I.call(I.global_lookup("server", "query_request"), [req], {}, None)
 
     n401 = nok = 0
-    runs = [(sc, p) for sc in ("no-auth", "bad-token", "ok") for p in explore(prog, lambda sc=sc: ServerHooks(sc), run, max_paths=128)]
+    runs = [(sc, p) for sc in ("no-auth", "bad-token", "foreign-scheme", "ok") for p in explore(prog, lambda sc=sc: ServerHooks(sc), run, max_paths=128)]
     for sc, p in runs:
         auth_missing = sc == "no-auth"
-        token_unknown = sc == "bad-token"
+        token_unknown = sc in ("bad-token", "foreign-scheme")
         touched = [e for e in p.effects if e[0] == "execute" or (e[0] == "call" and str(e[1]).endswith((".body", "json.loads", "gzip.decompress")))]
         if auth_missing or token_unknown:
             n401 += 1
             resp = p.value if p.outcome == "return" else None
             status = resp.attrs.get("status") if isinstance(resp, Obj) else None
             ok = isinstance(status, Const) and status.v == 401 and not touched
-            what = "no Authorization header" if auth_missing else "unknown token"
+            what = "no Authorization header" if auth_missing else "unknown token" if sc == "bad-token" else "an Authorization header of another scheme (`Bearer …`)"
             ctx.ob("C17.a", f"{what}: answered 401 before the body is read or anything runs", ok, m.loc(fn), f"status {tagof(status)} touched {len(touched)}")
             if not ok:
                 if touched:
